@@ -93,6 +93,11 @@ def run(ctx):
     ok = len(loops) == 1 and norm(loops[0].iter) == "self.pending_deletions" and len(dels) == 1 and norm(dels[0].args[0]) == norm(loops[0].target)
     ctx.check("R2-deletes-only-pending", where, ok, "apply_deletions deletes exactly the recorded pending deletions", construct="; ".join(norm(c) for c in dels))
 
+    # ---- R5: the limbo / removal machinery shared by both families stays in step ------------------
+    from ..rules import clone_agreement
+
+    clone_agreement(ctx, "R5-sibling-clone", BT, GT, ["DiskTreeTransform._rename_in_limbo", "DiskTreeTransform._limbo_name", "DiskTreeTransform._generate_limbo_path", "DiskTreeTransform._limbo_descendants", "DiskTreeTransform._limbo_supports_executable", "DiskTreeTransform._set_mode", "DiskTreeTransform.create_file", "DiskTreeTransform.create_directory", "DiskTreeTransform._read_symlink_target", "DiskTreeTransform.cancel_creation", "_cleanup_stale_dirs", "TreeTransformBase._set_executability", "TreeTransformBase.apply", "TreeTransformBase.finalize"], "limbo bookkeeping used by apply()")
+
     for rel, cls, meta in SIBLINGS:
         # ---- R1 --------------------------------------------------------------
         for phase in ("_apply_removals", "_apply_insertions"):
